@@ -16,11 +16,15 @@ from subjects import pool as SP
 # documented rejections: (exception type name, predicate(case) -> bool)
 
 
+# the strategies that document that candidates must be (indices of) training samples; every other strategy has to accept feature rows
+NO_ROW_CANDIDATES = {"ValueOfInformationEER", "Quire", "DiscriminativeAL", "Clue", "DropQuery", "TypiClust", "ProbCover"}
+
+
 def is_rejection(subj, exc, mode, lab, bs=1):
     name = type(exc).__name__
     msg = str(exc)
-    if name == "MappingError" and mode.startswith("rows"):
-        return "MappingError for feature-row candidates"
+    if name == "MappingError" and mode.startswith("rows") and subj.cls in NO_ROW_CANDIDATES:
+        return "MappingError for feature-row candidates (strategy needs a mapping to the training samples)"
     if name == "NotFittedError" and "cannot be used for `partial_fit` as it is unknown where it has been fitted on" in msg:
         return "expected-error-reduction strategies with fit_clf=False need a classifier with a native partial_fit and ignore_partial_fit=False (documented NotFittedError)"
     if name == "ValueError" and mode.startswith("rows") and "a mapping between candidates and the training dataset must exist" in msg:
